@@ -43,7 +43,6 @@ pub mod sim {
 
   struct Task {
     id: usize,
-    #[allow(dead_code)]
     origin: &'static str,
     fut: Option<Pin<Box<dyn Future<Output = ()>>>>,
     woken: Arc<Flag>,
@@ -91,6 +90,16 @@ pub mod sim {
       v.sort();
       v.into_iter().map(|x| x.1).collect()
     })
+  }
+
+  /// Id the next spawned task will get.
+  pub fn next_id() -> usize {
+    RT.with(|rt| rt.borrow().next_id)
+  }
+
+  /// Where a task was spawned (type name of its future).
+  pub fn origin(id: usize) -> Option<&'static str> {
+    RT.with(|rt| rt.borrow().tasks.iter().find(|t| t.id == id).map(|t| t.origin))
   }
 
   pub fn alive() -> Vec<usize> {
